@@ -230,6 +230,7 @@ def run(c, chk):
         chk.ok('R19.6', 'writers of cfg->pff', 'cfg_set_print_filter_func() only')
 
     filter_setter(c, chk)
+    print_func_setter(c, chk)
     layout_by_type(c, chk)
     indent_writer(c, chk)
     builtin_formatter(c, chk)
@@ -487,6 +488,54 @@ def filter_setter(c, chk):
     elif n:
         chk.ok('R19.6', 'cfg_set_print_filter_func: %d paths with a context' % n, 'each stores the argument, NULL included')
     chk.floor('R19.6 paths of the filter setter', n, 1)
+
+
+def _printer_uses_pf_for(c, type_value):
+    """does some path of the option printer call opt->pf after having found the option to be of this type?"""
+    from .. import outmodel
+    op = c.need('cfg_opt_print_pff_indent')
+    ex = sym.Explorer(c.modules, max_visits=2, mod_sets=c.mod_sets, max_paths=100000)
+    for p in ex.explore(op):
+        if not any(t[0] == 'call' and t[1] == 'indirect:pf' for t in outmodel.tokens(p.events, calls=('indirect:',))):
+            continue
+        if any(cn[0] == 'icmp' and cn[1] in ('eq', 'ne') and ((cn[1] == 'eq') == t) and sym.is_const(cn[3]) and cn[3][1] == type_value and
+               sym.mentions(cn[2], lambda v: v[0] == 'fld' and len(v) > 3 and v[3] == 'type') for cn, t, _ in p.assume):
+            return True
+    return False
+
+
+def print_func_setter(c, chk):
+    """R19.10: "options with a print callback are written through it" - for every kind of option: the callback-only layout of
+    a function option exists for nothing else.  The setter of the print callback stores its argument for every option it
+    is given; an option type it refuses can never be printed through a callback"""
+    chk.rule('R19.10', 'cfg_opt_set_print_func() stores the callback for every option it is given (no option type is refused: function options are printed through their callback only)')
+    fn = c.need('cfg_opt_set_print_func')
+    sec_v = (c.confuse.enums.get('cfg_type_t') or {}).get('CFGT_SEC')
+    ex = sym.Explorer(c.modules, max_visits=2, mod_sets=c.mod_sets, max_paths=5000)
+    n = 0
+    bad = None
+    for p in ex.explore(fn):
+        if p.end != 'ret':
+            continue
+        noopt = any((lambda na: na is not None and na[0] == ('p', 'opt') and na[1])(fp_is_null(cn, t)) for cn, t, _ in p.assume)
+        if noopt:
+            continue
+        n += 1
+        st = [e for e in p.events if e.kind == 'store' and e.field == 'pf' and sym.root_of(e.addr) == ('p', 'opt')]
+        if not st or st[-1].val != ('p', 'pf'):
+            # (a section is never written through opt->pf - its options are: refusing that one type takes nothing from the output)
+            sec_only = sec_v is not None and any(cn[0] == 'icmp' and cn[1] in ('eq', 'ne') and ((cn[1] == 'eq') == t) and sym.is_const(cn[3]) and cn[3][1] == sec_v and
+                                                  sym.mentions(cn[2], lambda v: v[0] == 'fld' and len(v) > 3 and v[3] == 'type') for cn, t, _ in p.assume)
+            if sec_only and not _printer_uses_pf_for(c, sec_v):
+                continue
+            bad = bad or p
+    if bad is not None:
+        from .. import failpaths as _fp
+        chk.fail('R19.10', 'print-func-not-stored', c.where(fn), 'cfg_opt_set_print_func() can return without having stored the callback in the option it was given (%s): '
+                 'such an option is never written through a print callback - a function option then disappears from the output altogether' % _fp.cond_text(bad, 3))
+    elif n:
+        chk.ok('R19.10', 'cfg_opt_set_print_func: %d paths with an option' % n, 'each stores the argument')
+    chk.floor('R19.10 paths of the print-callback setter', n, 1)
 
 
 def layout_by_type(c, chk):
